@@ -25,12 +25,15 @@ import (
 	"math"
 	"math/rand"
 	"os"
+	"os/exec"
 	"path/filepath"
 	"reflect"
 	"sort"
 	"strconv"
 	"strings"
+	"sync"
 
+	"github.com/quasilyte/go-ruleguard/ruleguard"
 	"github.com/quasilyte/go-ruleguard/ruleguard/ir"
 	"github.com/quasilyte/go-ruleguard/ruleguard/irconv"
 	"github.com/quasilyte/go-ruleguard/ruleguard/irprint"
@@ -357,6 +360,8 @@ var whereAtoms = []string{
 	`"aa" == m["x"].Text`, `"" != m["y"].Text`, `32 == m["x"].Value.Int()`, `0 != m["y"].Value.Int()`, `8 == m["x"].Type.Size`, `limitC != m["x"].Value.Int()`,
 	`m["x"].Value.Int() >= 31 && m["x"].Value.Int() < limitC`, `m["x"].Text > "aa"`, `m["x"].Text <= m["y"].Text`, `m["x"].Value.Int() > m["y"].Value.Int()`,
 	`m["x"].Type.Size < m["y"].Type.Size`,
+	// an interface that exists only under the build tag the engines are configured with (resolved while loading)
+	`m["y"].Type.Implements("chk.TaggedIface")`, `!m["x"].Type.HasMethod("chk.TaggedIface.Tag")`,
 }
 
 // Comparisons with the constant on the LEFT. The loader accepts the commutative ones; what it does with the ordering
@@ -609,6 +614,12 @@ type Case struct {
 	Ops       []int       `json:"ops"`
 	NGroups   int         `json:"ngroups"`
 	MayReject bool        `json:"may_reject,omitempty"`
+	// the real `gorules precompile` was run on the rules file: Text is ITS output
+	FromTool    bool   `json:"from_tool,omitempty"`
+	ToolErr     string `json:"tool_err,omitempty"`
+	ToolDiffers string `json:"tool_differs,omitempty"` // the tool's output vs irprint.File(irconv.ConvertFile(...)) in this process
+	// the IR that Load converts internally (convertAST with the engine's importer) vs the stand-alone conversion
+	EngineConvDiffers string `json:"engine_conv_differs,omitempty"`
 }
 
 func collectOps(f *ir.File) []int {
@@ -766,6 +777,56 @@ func (g *gen) histories(batch []Case, targDir string, n int) []History {
 	return out
 }
 
+func firstTextDiff(a, b string) string {
+	la, lb := strings.Split(a, "\n"), strings.Split(b, "\n")
+	for i := 0; i < len(la) || i < len(lb); i++ {
+		x, y := "<end>", "<end>"
+		if i < len(la) {
+			x = la[i]
+		}
+		if i < len(lb) {
+			y = lb[i]
+		}
+		if x != y {
+			return fmt.Sprintf("line %d: gorules precompile %q <> in-process %q", i+1, x, y)
+		}
+	}
+	return ""
+}
+
+// engineConvDiff: Load converts the source with convertAST (the engine's importer, the load context's file set); the
+// precompiler converts with its own parser / type-checker set-up. Both must arrive at the same IR.
+func engineConvDiff(path string, standalone *ir.File) (out string) {
+	src, err := os.ReadFile(path)
+	if err != nil {
+		return ""
+	}
+	defer func() {
+		if r := recover(); r != nil {
+			out = fmt.Sprintf("convertAST panics: %v", r)
+		}
+	}()
+	e := ruleguard.NewEngine()
+	e.InferBuildContext()
+	f, err := ruleguard.VerifConvertAST(e, &ruleguard.LoadContext{Fset: token.NewFileSet()}, path, src)
+	if err != nil {
+		return "convertAST: " + err.Error()
+	}
+	if reflect.DeepEqual(f, standalone) {
+		return ""
+	}
+	var a, b bytes.Buffer
+	func() {
+		defer func() { recover() }()
+		irprint.File(&a, f)
+		irprint.File(&b, standalone)
+	}()
+	if d := firstTextDiff(b.String(), a.String()); d != "" {
+		return strings.Replace(strings.Replace(d, "gorules precompile", "stand-alone conversion", 1), "in-process", "convertAST inside Load", 1)
+	}
+	return "values differ (reflect.DeepEqual) but print alike"
+}
+
 func main() {
 	seed := flag.Int64("seed", 1, "PRNG seed")
 	nrand := flag.Int("n", 150, "random IR values")
@@ -774,6 +835,7 @@ func main() {
 	gendir := flag.String("gendir", "", "directory for the generated batch program")
 	repo := flag.String("repo", "/repo", "repository root (fixture rules files)")
 	nhist := flag.Int("nhist", 24, "load histories")
+	gorules := flag.String("gorules", "", "path of the built cmd/gorules binary (its `precompile` output becomes the printed text of rules-file cases)")
 	flag.Parse()
 	if *tmp == "" || *gendir == "" {
 		fmt.Fprintln(os.Stderr, "need -tmp and -gendir")
@@ -874,6 +936,34 @@ func main() {
 	os.MkdirAll(targDir, 0o755)
 	os.WriteFile(filepath.Join(targDir, "targ.go"), []byte(genTarget), 0o644)
 
+	// the real precompiler, run on every rules file (in parallel; each is a process of its own)
+	toolOut := make([]string, len(items))
+	toolErr := make([]string, len(items))
+	if *gorules != "" {
+		var wg sync.WaitGroup
+		sem := make(chan struct{}, 8)
+		for id, it := range items {
+			if it.rulesPath == "" || it.f == nil {
+				continue
+			}
+			wg.Add(1)
+			go func(id int, path string) {
+				defer wg.Done()
+				sem <- struct{}{}
+				defer func() { <-sem }()
+				var stdout, stderr bytes.Buffer
+				cmd := exec.Command(*gorules, "precompile", "-rules", path)
+				cmd.Stdout, cmd.Stderr = &stdout, &stderr
+				if err := cmd.Run(); err != nil {
+					toolErr[id] = fmt.Sprintf("%v: %s", err, stderr.String())
+					return
+				}
+				toolOut[id] = stdout.String()
+			}(id, it.rulesPath)
+		}
+		wg.Wait()
+	}
+
 	enc := json.NewEncoder(os.Stdout)
 	var batch []Case
 	for id, it := range items {
@@ -900,6 +990,20 @@ func main() {
 			irprint.File(&buf, it.f)
 			c.Text = buf.String()
 		}()
+		if it.rulesPath != "" && *gorules != "" {
+			c.FromTool = true
+			if toolErr[id] != "" {
+				c.ToolErr = toolErr[id]
+			} else {
+				if toolOut[id] != c.Text {
+					c.ToolDiffers = firstTextDiff(toolOut[id], c.Text)
+				}
+				c.Text, c.PrintErr = toolOut[id], ""
+			}
+		}
+		if it.rulesPath != "" {
+			c.EngineConvDiffers = engineConvDiff(it.rulesPath, it.f)
+		}
 		if c.PrintErr == "" {
 			fset := token.NewFileSet()
 			e, err := parser.ParseExprFrom(fset, "lit.go", c.Text, 0)
